@@ -64,3 +64,6 @@ int sz_replace (int a, int b, int r) {
   return stringp (x) ? strlen (x) : -1;
 }
 int sz_sprintf (int a, int b) { string x = str (a, "x"), y = str (b, "y"); return strlen (sprintf ("%s%s", x, y)); }
+
+// the budget as LPC code can set it: set_eval_limit (n) stores (int) n as MaxEvaluationCost (n other than 0, 1, -1)
+int set_limit (int n) { set_eval_limit (n); return set_eval_limit (1); }
